@@ -243,58 +243,61 @@ impl TestRunner {
             self.ram.read().unwrap().ram[self.cpu.get_program_counter() as usize]
         );
 
-        // Check active elements
-        let mut active_traces = vec![];
-        let mut active_assertions = vec![];
-        let mut idx = 0;
-        while idx < self.test_elements.len() {
-            let should_remove = match &self.test_elements[idx] {
-                TestElement::Assertion(e) => {
-                    e.snapshot.pc.as_u16() == self.cpu.get_program_counter()
-                }
-                TestElement::Trace(e) => e.snapshot.pc.as_u16() == self.cpu.get_program_counter(),
-            };
+        // Check active elements. They stay active: an assertion inside a loop or a subroutine is checked every time it is reached.
+        let pc = self.cpu.get_program_counter();
+        let registers = self.registers();
+        let flags = self.cpu.get_status_register();
+        let active = self
+            .test_elements
+            .iter()
+            .enumerate()
+            .filter(|(_, element)| match element {
+                TestElement::Assertion(e) => e.snapshot.pc.as_u16() == pc,
+                TestElement::Trace(e) => e.snapshot.pc.as_u16() == pc,
+            })
+            .map(|(idx, _)| idx)
+            .collect_vec();
 
-            if should_remove {
-                match self.test_elements.remove(idx) {
-                    TestElement::Assertion(a) => {
-                        active_assertions.push(a);
+        // Traces first, so that a failing assertion at the same address reports them
+        for idx in &active {
+            if let TestElement::Trace(trace) = &mut self.test_elements[*idx] {
+                let fmt = match trace.exprs.is_empty() {
+                    true => format_cpu_details(&self.cpu, false),
+                    false => {
+                        trace
+                            .snapshot
+                            .symbols
+                            .ensure_cpu_symbols(registers.clone(), flags);
+                        format_trace(trace, &self.ctx.lock().unwrap())
                     }
-                    TestElement::Trace(t) => {
-                        active_traces.push(t);
-                    }
-                }
-            } else {
-                idx += 1;
+                };
+                self.formatted_traces.push(FormattedTrace(fmt));
             }
         }
 
-        for mut trace in active_traces {
-            let fmt = match trace.exprs.is_empty() {
-                true => format_cpu_details(&self.cpu, false),
-                false => {
-                    trace
+        for idx in active {
+            let failed = match &mut self.test_elements[idx] {
+                TestElement::Assertion(assertion) => {
+                    assertion
                         .snapshot
                         .symbols
-                        .ensure_cpu_symbols(self.registers(), self.cpu.get_status_register());
-                    format_trace(trace, &self.ctx.lock().unwrap())
+                        .ensure_cpu_symbols(registers.clone(), flags);
+                    let ctx = self.ctx.lock().unwrap();
+                    let evaluator = assertion.snapshot.get_evaluator(ctx.functions());
+                    let eval_result = evaluator
+                        .evaluate_expression(&assertion.expr, false)
+                        .ok()
+                        .flatten();
+                    eval_result == Some(SymbolData::Number(0)) || eval_result.is_none()
                 }
+                TestElement::Trace(_) => false,
             };
-            self.formatted_traces.push(FormattedTrace(fmt));
-        }
 
-        for mut assertion in active_assertions {
-            assertion
-                .snapshot
-                .symbols
-                .ensure_cpu_symbols(self.registers(), self.cpu.get_status_register());
-            let ctx = self.ctx.lock().unwrap();
-            let evaluator = assertion.snapshot.get_evaluator(ctx.functions());
-            let eval_result = evaluator
-                .evaluate_expression(&assertion.expr, false)
-                .ok()
-                .flatten();
-            if eval_result == Some(SymbolData::Number(0)) || eval_result.is_none() {
+            if failed {
+                let assertion = match self.test_elements.remove(idx) {
+                    TestElement::Assertion(assertion) => assertion,
+                    TestElement::Trace(_) => unreachable!(),
+                };
                 let message = assertion.failure_message.clone().unwrap_or_else(|| {
                     let expr = format!("{}", &assertion.expr.data).trim().to_string();
                     format!("assertion failed: {}", expr)
@@ -390,7 +393,7 @@ impl TestRunner {
     }
 }
 
-fn format_trace(trace: Trace, ctx: &CodegenContext) -> String {
+fn format_trace(trace: &Trace, ctx: &CodegenContext) -> String {
     let mut eval = vec![];
     for expr in &trace.exprs {
         let evaluator = trace.snapshot.get_evaluator(ctx.functions());
